@@ -9,6 +9,7 @@ import (
 	"path/filepath"
 	"strings"
 	"sync"
+	"sync/atomic"
 	"time"
 )
 
@@ -275,16 +276,30 @@ func sanitize(s string) string {
 	return r
 }
 
+// maxFailures: once this many obligations have failed the remaining ones are skipped (the check has its answer;
+// on a badly broken tree every further failure would cost the full solver budget). 0 = no limit.
+var maxFailures = 0
+
 func solveAll(obls []*Obligation, dir string, timeoutS, canaryTimeoutS, needAgree, par int) []*SolveResult {
 	out := make([]*SolveResult, len(obls))
 	sem := make(chan struct{}, par)
 	var wg sync.WaitGroup
+	var nfail int32
 	for i, o := range obls {
 		wg.Add(1)
 		go func(i int, o *Obligation) {
 			defer wg.Done()
 			sem <- struct{}{}
 			defer func() { <-sem }()
+			if maxFailures > 0 && int(atomic.LoadInt32(&nfail)) >= maxFailures {
+				out[i] = &SolveResult{Name: o.Name, Kind: o.Kind, Tags: o.Tags, Result: "skipped", obl: o}
+				return
+			}
+			defer func() {
+				if r := out[i]; r != nil && r.Result != "unsat" && r.Result != "ok-canary" {
+					atomic.AddInt32(&nfail, 1)
+				}
+			}()
 			if o.Canary {
 				out[i] = solveObligation(o, dir, canaryTimeoutS, 1, solvers[:2])
 			} else if o.Goal == "true" {
